@@ -53,8 +53,11 @@ type Node struct {
 	csvCb          map[string]func(swapId string) error
 
 	// plans (consumed by the fakes)
-	Faults           map[string][]FaultKind
-	FaultsFired      []string
+	Faults      map[string][]FaultKind
+	FaultsFired []string
+	// Eager: a watch or payment notifier registered for an event that has already happened is called
+	// back at once on its own goroutine (what the real watchers do), not when the test next polls.
+	Eager            bool
 	PayPlan          map[string][]PayOutcome
 	RecoverPlan      []bool
 	MineOnHeightCall map[string][]uint32
@@ -160,6 +163,14 @@ func (n *Node) Boot() error {
 	n.ConfWaits = map[string][]*ConfWait{}
 	n.CsvWaits = map[string][]*CsvWait{}
 	n.Notifiers = map[string]*notifier{}
+	// ... and so are the notifications the lightning node had queued for its subscriptions
+	var keep []Notif
+	for _, nt := range w.LN.Notifs {
+		if nt.Node != n.Name {
+			keep = append(keep, nt)
+		}
+	}
+	w.LN.Notifs = keep
 	w.mu.Unlock()
 
 	store, err := swap.NewBboltStore(n.DB)
